@@ -90,6 +90,28 @@ def mixed_head_grammar():
     return g
 
 
+def dense_mixed_grammar():
+    """G11: two tags A, B and a third category C; the pair (c_i, c_j) yields c_k whenever i + j + k is odd, left-headed when i + 2j + k is
+    even and right-headed otherwise. Spans of 5 words have thousands of chart items of different categories and heads, and changing the
+    category of a child usually makes its parent unlicensed."""
+    cats = [P('A'), P('B'), P('C')]
+
+    def binary(x, y):
+        if x in cats and y in cats:
+            i, j = cats.index(x), cats.index(y)
+            out = []
+            for k, c in enumerate(cats):
+                if (i + j + k) % 2:
+                    h = (i + 2 * j + k) % 2 == 0
+                    lab = f'{i}{j}{k}' + ('L' if h else 'R')
+                    out.append(CombinatorResult(c, lab, '<' + lab + '>', h))
+            return out
+        return []
+    g = Grammar('G11.mixed', cats[:2], list(cats), binary, lambda x: [], True)
+    g.mixed = True
+    return g
+
+
 def empty_root_grammar():
     return table_grammar('G5e', ['A', 'B'], [], {('A', 'B'): [('R', 'r')]}, {}, True)
 
@@ -374,7 +396,8 @@ def full_product(n, T, values, lo=0, hi=None):
 
 def baseline_vector(n, T, baseline):
     """a constant baseline (number) or a named graded one: dyadic values that differ between entries, so that the agenda order is
-    decided by the scores and not by ties ('g1': a residue pattern; 'g2': tags get worse with their index, attachments with distance)"""
+    decided by the scores and not by ties ('g1': a residue pattern; 'g2': tags get worse with their index, attachments with distance;
+    'g3': g1 with a per-word offset on the attachment scores, so that the best attachment score differs between words)"""
     N = n_entries(n, T)
     if not isinstance(baseline, str):
         return [float(baseline)] * N
@@ -383,8 +406,10 @@ def baseline_vector(n, T, baseline):
         for t in range(T):
             tag[i, t] = -0.25 * ((i + 2 * t) % 4) if baseline == 'g1' else -0.5 * t - 0.125 * (i % 2)
         for h in range(n + 1):
-            dep[i, h] = -0.125 * ((3 * i + 5 * h) % 8) if baseline == 'g1' else -0.25 * abs(i + 1 - h)
-    if baseline not in ('g1', 'g2'):
+            dep[i, h] = -0.125 * ((3 * i + 5 * h) % 8) if baseline in ('g1', 'g3') else -0.25 * abs(i + 1 - h)
+            if baseline == 'g3':
+                dep[i, h] -= 0.5 * ((3 * i) % 4)        # the best attachment score differs from word to word (outside estimates depend on the head)
+    if baseline not in ('g1', 'g2', 'g3'):
         raise ValueError(baseline)
     return [float(v) for v in list(tag.reshape(-1)) + list(dep.reshape(-1))]
 
